@@ -30,7 +30,7 @@ Judge(S) == viol' = viol \cup Broken(S)
 FreshTr == [id |-> 0, ktx |-> [s \in Sides |-> ""], krx |-> [s \in Sides |-> ""], started |-> {}, rtpSeen |-> {}]
 
 DefaultCfg == [mode |-> "WebRtc", media |-> {"dc"}, bundle |-> "balanced", mux |-> "require", ice |-> "full",
-               latching |-> FALSE, compat |-> "Standard", offerer |-> "A"]
+               latching |-> FALSE, compat |-> "Standard", offerer |-> "A", sched |-> "plain"]
 
 Blank(c) ==
     /\ cfg' = c
@@ -68,7 +68,8 @@ MediaOf(r) == (IF r.b1 THEN {"dc"} ELSE {}) \cup (IF r.b2 THEN {"audio"} ELSE {}
 TReset ==
     /\ Is("reset")
     /\ LET c == [mode |-> Ev.site, media |-> MediaOf(Ev), bundle |-> Ev.x, mux |-> Ev.sig, ice |-> Ev.peer,
-                 latching |-> Ev.b4, compat |-> Ev.reason, offerer |-> Ev.inst]
+                 latching |-> Ev.b4, compat |-> Ev.reason, offerer |-> Ev.inst,
+                 sched |-> IF Ev.m = 1 THEN "slowSetRemote" ELSE "plain"]
        IN /\ Blank(c)
           /\ viol' = Broken({<<"C10.Lattice", Compatible(c)>>})
     /\ tr' = [FreshTr EXCEPT !.id = Ev.n]
@@ -95,7 +96,7 @@ TStartTransport ==
           /\ sctp' = [sctp EXCEPT ![s] = IF HasDc THEN "connecting" ELSE @]
           /\ Judge({<<"C10.Roles", (IsWeb /\ role[Other(s)] # "none") => r # role[Other(s)]>>,
                     <<"C10.Roles", IsWeb <=> r \in {"client", "server"}>>,
-                    <<"EXT", rdesc[s]>>})
+                    <<"EXT", rdesc[s] \/ cfg.sched = "slowSetRemote">>})
     /\ tr' = [tr EXCEPT !.started = @ \cup {Ev.inst}]
     /\ UNCHANGED <<cfg, sig, ldesc, rdesc, keys, chan, peer, dcGot, rtpGot>>
     /\ Consume
